@@ -519,3 +519,118 @@ func checkLockOrder(c *Ctx, r *Result, lfs *LockFlows, rule string, relevant fun
 	}
 	r.Floor(rule+"-locksites", nSites, 40)
 }
+
+// ---- re-entrance: a lock of the receiver is not acquired again while held ------------------------
+
+// recvLockAcquires: lock paths relative to the receiver ("lock", "newTaskCond.L") that fn acquires
+// itself or through static calls of methods on the same receiver.
+func recvLockAcquires(c *Ctx, fn *ssa.Function, memo map[*ssa.Function]map[string]string, depth int) map[string]string {
+	if m, ok := memo[fn]; ok {
+		return m
+	}
+	out := map[string]string{}
+	memo[fn] = out
+	if fn.Signature.Recv() == nil || len(fn.Params) == 0 || depth > 6 {
+		return out
+	}
+	prefix := fn.Params[0].Name() + "."
+	allInstrs(fn, func(in ssa.Instruction) {
+		if op, ok := lockOpOf(in); ok {
+			if op.acquire() && strings.HasPrefix(op.Path, prefix) {
+				out[strings.TrimPrefix(op.Path, prefix)] = op.Kind + " in " + c.FuncKey(fn)
+			}
+			return
+		}
+		ci, ok := in.(ssa.CallInstruction)
+		if !ok {
+			return
+		}
+		if _, isGo := in.(*ssa.Go); isGo {
+			return
+		}
+		callee := ci.Common().StaticCallee()
+		if callee == nil || !c.modFuncSet[callee] || callee.Signature.Recv() == nil {
+			return
+		}
+		args := callArgs(ci.Common())
+		if len(args) == 0 || args[0] != ssa.Value(fn.Params[0]) {
+			return
+		}
+		for p, why := range recvLockAcquires(c, callee, memo, depth+1) {
+			if _, dup := out[p]; !dup {
+				out[p] = why
+			}
+		}
+	})
+	return out
+}
+
+// checkReentrance reports calls of same-receiver methods made while a receiver lock that the
+// callee acquires (again) may be held. sync.Mutex is not re-entrant; a recursive RLock deadlocks
+// as soon as a writer asks for the lock between the two read locks.
+func checkReentrance(c *Ctx, r *Result, lfs *LockFlows, rule string, relevant func(class string) bool) int {
+	memo := map[*ssa.Function]map[string]string{}
+	n := 0
+	for _, fn := range c.ModFuncs() {
+		if fn.Signature.Recv() == nil || len(fn.Params) == 0 {
+			continue
+		}
+		lf := lfs.Of(fn)
+		if lf == nil || len(lf.Ops) == 0 {
+			continue
+		}
+		prefix := fn.Params[0].Name() + "."
+		paths := map[string]string{}
+		for _, op := range lf.Ops {
+			if op.acquire() && strings.HasPrefix(op.Path, prefix) && relevant(op.Class) {
+				paths[op.Path] = op.Class
+			}
+		}
+		if len(paths) == 0 {
+			continue
+		}
+		key := c.FuncKey(fn)
+		ord := newOrdinals()
+		allInstrs(fn, func(in ssa.Instruction) {
+			ci, ok := in.(ssa.CallInstruction)
+			if !ok {
+				return
+			}
+			if _, isGo := in.(*ssa.Go); isGo {
+				return
+			}
+			if _, isDefer := in.(*ssa.Defer); isDefer {
+				return
+			}
+			if _, isLock := lockOpOf(in); isLock {
+				return
+			}
+			callee := ci.Common().StaticCallee()
+			if callee == nil || !c.modFuncSet[callee] || callee.Signature.Recv() == nil {
+				return
+			}
+			args := callArgs(ci.Common())
+			if len(args) == 0 || args[0] != ssa.Value(fn.Params[0]) {
+				return
+			}
+			acq := recvLockAcquires(c, callee, memo, 0)
+			for p, class := range paths {
+				if !lf.MayHoldPath(in, p) {
+					continue
+				}
+				n++
+				rel := strings.TrimPrefix(p, prefix)
+				site := ord.key(key, "reentry", class+":"+callee.Name())
+				pos := c.Pos(c.InstrPos(in))
+				if why, again := acq[rel]; again {
+					r.Instance(rule, site, pos, "finding", "re-acquires "+class, true)
+					r.Report(Finding{Rule: rule, Site: site, Pos: pos,
+						Msg: fmt.Sprintf("%s calls %s while %s may be held, and the callee acquires it again (%s): sync locks are not re-entrant — a second Lock blocks forever, a second RLock blocks as soon as a writer is waiting between the two (every later reader and the writer hang)", key, c.FuncKey(callee), class, why)})
+				} else {
+					r.Instance(rule, site, pos, "ok", "callee does not acquire "+class+" on the same receiver", true)
+				}
+			}
+		})
+	}
+	return n
+}
